@@ -610,7 +610,12 @@ func (a *act) callDynamic(c *ssa.CallCommon, fnv Val, args []Val, guard string, 
 		fx.addObl("pre@"+name, a.prefix()+r.Text, guard, t, pos, "precondition of function value")
 	}
 	if !cs.Pure {
-		fx.unknownCall("dynamic call "+name+" (callspec without pure)", st)
+		// may allocate; assumed not to modify existing objects
+		nb := fx.now(st)
+		n := fx.havocSV(st, "$now", SInt)
+		fx.ctx.Assert(fmt.Sprintf("(>= %s %s)", n, nb))
+		env.nowOld = nb
+		fx.eng.assume("function-typed parameters with a callspec may allocate but do not modify existing objects")
 	}
 	for _, en := range cs.Ensures {
 		t := fx.specTerm(en.X, env, st, st, fx.spec.Pkg)
@@ -701,7 +706,11 @@ func (a *act) callWrites(c *ssa.CallCommon) (map[string]Sort, bool) {
 		// dynamic: pure application unless callspec says otherwise
 		return out, false
 	}
-	seen := map[*ssa.Function]bool{}
+	if a.fx.cwSeen == nil {
+		a.fx.cwSeen = map[*ssa.Function]bool{}
+		defer func() { a.fx.cwSeen = nil }()
+	}
+	seen := a.fx.cwSeen
 	var visit func(fn *ssa.Function, depth int) bool
 	visit = func(fn *ssa.Function, depth int) bool {
 		if seen[fn] {
@@ -712,7 +721,8 @@ func (a *act) callWrites(c *ssa.CallCommon) (map[string]Sort, bool) {
 			specs = append(specs, sp)
 			return false
 		}
-		if len(fn.Blocks) == 0 || depth > 8 {
+		inModule := fn.Pkg != nil && isModulePkg(fn.Pkg.Pkg.Path()) || fn.Parent() != nil || fn.Synthetic != ""
+		if len(fn.Blocks) == 0 || !inModule || len(seen) > 200 {
 			return true
 		}
 		sub := &act{fx: a.fx, fn: fn, vals: map[ssa.Value]Val{}, ranges: map[ssa.Value]*rangeInfo{}}
